@@ -100,6 +100,41 @@ impl<R> Drop for NotifyOnDrop<R> {
     }
 }
 
+/// Body of a request sent with a chunked transfer coding.
+///
+/// Like `EqualReader` for bodies with a `Content-Length`, the part of the body that has not
+/// been read is discarded when this reader is dropped, so that the next request of the
+/// connection is parsed from the first byte after the body.
+struct ChunkedBody<R: Read> {
+    decoder: Decoder<R>,
+    // true once the end of the body (or an error) has been reached
+    finished: bool,
+}
+
+impl<R: Read> Read for ChunkedBody<R> {
+    fn read(&mut self, buf: &mut [u8]) -> io::Result<usize> {
+        let result = self.decoder.read(buf);
+        match result {
+            Ok(0) if !buf.is_empty() => self.finished = true,
+            Err(_) => self.finished = true,
+            _ => (),
+        }
+        result
+    }
+}
+
+impl<R: Read> Drop for ChunkedBody<R> {
+    fn drop(&mut self) {
+        let mut buf = [0u8; 4096];
+        while !self.finished {
+            match self.decoder.read(&mut buf) {
+                Ok(0) | Err(_) => self.finished = true,
+                Ok(_) => (),
+            }
+        }
+    }
+}
+
 /// Error that can happen when building a `Request` object.
 #[derive(Debug)]
 pub enum RequestCreationError {
@@ -233,7 +268,11 @@ where
     } else if transfer_encoding.is_some() {
         // if a transfer-encoding was specified, then "chunked" is ALWAYS applied
         // over the message (RFC2616 #3.6)
-        Box::new(FusedReader::new(Decoder::new(source_data))) as Box<dyn Read + Send + 'static>
+        let body = ChunkedBody {
+            decoder: Decoder::new(source_data),
+            finished: false,
+        };
+        Box::new(FusedReader::new(body)) as Box<dyn Read + Send + 'static>
     } else {
         // if we have neither a Content-Length nor a Transfer-Encoding,
         // assuming that we have no data
